@@ -54,13 +54,15 @@ def write_csv(path, rows, order, with_adj=True, int_opens=False, cols=None, date
             f.write(','.join([d_] + [cell[c] for c in names]) + '\n')
 
 
-def gen_rows(rng, used, n=None, start=None):
+def gen_rows(rng, used, n=None, start=None, huge=False):
     n = n if n is not None else rng.choice([1, 1, 2, 3, 5, 8, 13, 20, 40])
     d = start or (dt.date(1995, 1, 1) + dt.timedelta(days=rng.randint(0, 12700)))
     rows = []
     nan_p = rng.choice([0.0, 0.0, 0.1, 0.3])
     stale = rng.random() < 0.25
     base = 10 ** rng.uniform(0, 3)
+    if huge:
+        base = 4.0e9                     # quotes in a small-denomination currency: integer-typed columns come close to 2**63 when multiplied
     for i in range(n):
         def val():
             for _ in range(100):
@@ -70,7 +72,7 @@ def gen_rows(rng, used, n=None, start=None):
                     return v
             raise RuntimeError('no unique value')
         o, c = val(), val()
-        ratio = rng.choice([1.0, 1.0, 0.5, rng.uniform(0.2, 1.1)])
+        ratio = rng.choice([1.0, 1.0, 0.5, rng.uniform(0.2, 1.1), 0.999992, 1.000004])     # also a tiny distribution
         a = round(c * ratio, 4) if ratio != 1.0 else c
         if a in used and a != c:
             a = val()
@@ -180,8 +182,11 @@ class Dataset(object):
             nsym = rng.choice([1, 1, 2, 3])
             spec = {'adjust': rng.random() < 0.6, 'files': {}}
             base = dt.date(1995, 1, 1) + dt.timedelta(days=rng.randint(0, 12700))
+            if rng.random() < 0.12:
+                base = dt.date(1958, 1, 1) + dt.timedelta(days=rng.randint(0, 4300))      # long histories: before the Unix epoch
             twin_calendar = nsym >= 2 and rng.random() < 0.3
             int_opens = rng.random() < 0.2
+            huge = rng.random() < 0.05               # whole-number quotes of a few billion in every price column
             dotted = rng.random() < 0.3
             lower = (not dotted) and rng.random() < 0.2
             cols = None
@@ -198,7 +203,7 @@ class Dataset(object):
                 if lower:
                     sym = ['tip', 'tips', 'gs'][s]            # lower-case file names, also ending in c / s / v
                 start = base + dt.timedelta(days=rng.choice([0, 0, 3, 17, 90]))
-                rows = gen_rows(rng, used, start=start)
+                rows = gen_rows(rng, used, start=start, huge=huge)
                 if twin_calendar and s > 0:
                     # same first date, last date and row count as S0, but other days in between
                     ref = list(spec['files'].values())[0]['rows']
@@ -210,6 +215,10 @@ class Dataset(object):
                             rows = gen_rows(rng, used, n=len(ref), start=d0)
                             for r, d in zip(rows, days):
                                 r['date'] = d.isoformat()
+                if huge:
+                    int_opens = True
+                    spec['int_closes'] = True
+                    spec['adjust'] = spec['adjust'] or rng.random() < 0.7
                 if int_opens:
                     for r in rows:
                         if r['open'] is not None:
